@@ -64,6 +64,11 @@ def space(tier, seed):
     qs.append(('str', {'items': [('bmax', ('toint', F('a', 3)), ('int', 5)), ('bminlist', F('a', 1), F('a', 2)), ('bsumlist', ('int', 1), ('int', 2))], 'where': None, 'group': None}))
     qs.append(('str', {'items': [A('SUM', 'U', ('bmax', ('toint', F('a', 3)), ('int', 0))), A('MIN', 'l', ('bmin', ('toint', F('a', 3)), ('int', 5)))], 'where': None, 'group': [F('a', 1)]}))
     qs.append(('base', {'items': [('bmax', F('a', 1), F('a', 2))], 'where': None, 'group': None}))
+    qs.append(('gen', {'items': [F('a', 1), ('bmaxgen', F('a', 3), ';'), ('bminmap', F('a', 3), ';'), ('bsumgen', F('a', 3), ';')], 'where': None, 'group': None}))
+    qs.append(('gen', {'items': [F('a', 1), ('agg', 'SUM', 'U', ('bmaxgen', F('a', 3), ';'))], 'where': None, 'group': [F('a', 1)]}))
+    # group keys whose code-point order differs from a case-insensitive / locale collation
+    for kind in ('COUNT', 'ARRAY_AGG'):
+        qs.append(('keycase', {'items': [F('a', 1), ('agg', kind, 'U', F('a', 3))], 'where': None, 'group': [F('a', 1)]}))
     # numeric group keys: ascending key order is numeric, not textual
     qs.append(('str', {'items': [('toint', F('a', 3)), A('COUNT', 'U', ('star', None))], 'where': None, 'group': [('toint', F('a', 3))]}))
     qs.append(('str', {'items': [A('ARRAY_AGG', 'U', F('a', 1)), A('MAX', 'U', F('a', 3))], 'where': None, 'group': [('arith', '*', ('toint', F('a', 3)), ('int', 1)), F('a', 1)]}))
@@ -80,6 +85,12 @@ def space(tier, seed):
 def tables_for(sp_, slice_, maxrows):
     g, h = sp_['g'], sp_['h']
     res = []
+    if slice_ == 'gen':
+        rows = [[g, 'u', v] for v in ('1;5;3', '7', '-2;0')] + [[h, 'u', '4;4']]
+        return list(qcheck.tables_upto(rows, min(maxrows, 3)))
+    if slice_ == 'keycase':
+        rows = [[k_, 'u', '1'] for k_ in ('B', 'a', '_c', 'b', 'Z-', 'é')]
+        return [T for T in qcheck.tables_upto(rows, min(maxrows, 3))]
     if slice_ == 'big':
         # integer strings above 2**53: conversion must be exact (not through float)
         rows = [[g, 'u', v] for v in ('9007199254740993', '9007199254740992', '-9007199254740995', '7')]
